@@ -60,6 +60,8 @@ def unit_table(repo):
     for f in ("test_main", "test_fitsio", "test_eval", "test_operators"):
         t["test/" + f] = ("test/%s.cpp" % f, "c++", ("-DPHOTOSPLINE_NO_EVAL_TEMPLATES",), "thorough")
     t["test/test_fit"] = ("test/test_fit.cpp", "c++", (), "thorough")
+    t["python"] = ("src/python/photosplinemodule.cpp", "c++",
+                   ("-I/usr/include/python3.11", "-I/opt/veriftools/pyvenv/lib/python3.11/site-packages/numpy/_core/include"), "thorough")
     t["driver"] = (os.path.join(VERIF, "tu", "api_instances.cpp"), "c++", (), "quick")
     t["driver-noevaltmpl"] = (os.path.join(VERIF, "tu", "api_instances.cpp"), "c++",
                               ("-DPHOTOSPLINE_NO_EVAL_TEMPLATES",), "quick")
@@ -68,7 +70,6 @@ def unit_table(repo):
 
 # source files that are knowingly outside the analysed build, one reason each
 UNCOVERED_OK = {
-    "src/python/photosplinemodule.cpp": "python extension: not part of the configured build (needs numpy)",
 }
 
 
